@@ -34,7 +34,8 @@ def _job(job):
             shutil.rmtree(d, ignore_errors=True)
         return ev
     ev, _ = pipeline.run_compute(job["spec"], job["seed"], job.get("scheduler", "sync"), job.get("write", True), job.get("fault"),
-                                 out_name=job.get("out_name", "out.fits"), path_form=job.get("path_form", "str"))
+                                 out_name=job.get("out_name", "out.fits"), path_form=job.get("path_form", "str"),
+                                 preexisting=job.get("preexisting", False))
     return ev
 
 
@@ -97,6 +98,21 @@ def run(tier="quick", seed=0):
     for sd in range(8):
         jobs.append({"kind": "clean-nowrite-empty", "spec": {"mode": "Diffuse", "thrown": 1, "limb": float(np.radians(0.2))}, "seed": seed + 200 + sd, "write": False})
         jobs.append({"kind": "clean-maybe-empty", "spec": {"mode": "Diffuse", "thrown": 1, "limb": float(np.radians(0.2))}, "seed": seed + 200 + sd})
+    # history: the output path already holds the file of an EARLIER run (other columns, other header).  With write_stages it is replaced at the
+    # first boundary (also when the run fails right there or later); without write_stages the simulation leaves it exactly as it was
+    for mode in ("Diffuse", "Target"):
+        jobs.append({"kind": "clean-stale", "spec": _spec_of(mode, True, True, thrown), "seed": seed + 9, "preexisting": True})
+        jobs.append({"kind": "nowrite-stale", "spec": _spec_of(mode, True, True, thrown), "seed": seed + 9, "preexisting": True, "write": False})
+        for kb in (1, 2, 8):
+            jobs.append({"kind": "raise-stale", "spec": _spec_of(mode, True, True, thrown), "seed": seed + 9, "preexisting": True,
+                         "fault": ("boundary", kb, "raise")})
+        jobs.append({"kind": "raise-nowrite-stale", "spec": _spec_of(mode, True, True, thrown), "seed": seed + 9, "preexisting": True, "write": False,
+                     "fault": ("boundary", 5, "raise")})
+        jobs.append({"kind": "stage-stale", "spec": _spec_of(mode, True, True, thrown), "seed": seed + 9, "preexisting": True,
+                     "fault": ("stage", sorted(pipeline.STAGE_POINTS)[0])})
+    jobs.append({"kind": "empty-stale", "spec": {"mode": "Target", "thrown": 20, "obst": 600.0, "ra": 0.0, "dec": 1.5}, "seed": seed, "preexisting": True})
+    jobs.append({"kind": "empty-nowrite-stale", "spec": {"mode": "Target", "thrown": 20, "obst": 600.0, "ra": 0.0, "dec": 1.5}, "seed": seed,
+                 "preexisting": True, "write": False})
     # the output file given as a path object instead of a str
     for mode in ("Diffuse", "Target"):
         jobs.append({"kind": "clean-pathlib", "spec": _spec_of(mode, True, True, thrown), "seed": seed + 8, "path_form": "pathlib"})
